@@ -6,16 +6,21 @@
   countdown −11 … −1, entry ≥ 0 = asleep, value = next tree of the sleep cycle); a launch = its tasks one
   after another in ANY order, each task one atomic step on the CURRENT state.
 
-  § 1  kernel refinements (every scalar type `K`, every input): the write list of `_wake_tree`, `_wake_kernel`,
-       `_wake_collision_kernel`, `_sweep_awake_trees`, `_check_island_can_sleep`, `_build_cycles`,
-       `_update_sleep_trees`, `_zero_sleep_counters` IS the model's; applied to the state it is the model's
-       transition; launches of the generated kernels are the model's launches.
+  § 1  kernel refinements (every scalar type `K`, EVERY input — the generated `_wake_tree` walks with
+       `for step in range(ntree + 1)`, no fuel parameter): the write list of `_wake_tree`, `_wake_kernel`,
+       `_wake_collision_kernel`, `_wake_tendon_kernel`, `_wake_equality_kernel` (+ `_wake_tendon_trees`,
+       `_tendon_wake_val`), `_sweep_awake_trees`, `_check_island_can_sleep`, `_build_cycles`, `_update_sleep_trees`,
+       `_zero_sleep_counters` IS the model's; applied to the state it is the model's transition; launches of the
+       generated kernels are the model's launches (`*_launch_refines`).
   § 2  `wellformed_invariant`: WF (sleeping entries form cycles) is kept by every operation;
-       `wake_wakes_whole_cycle`; `_build_cycles` makes each sleeping island one cycle.
-  § 3  `falls_asleep_only_if` + `countdown_needs_minawake`.
-  § 4  `wakes_if_*`.
-  § 5  `wake_order`: which value is written; the final VALUES depend on the task order (witness file), the
-       SET of awake trees does not (`awake_set_order_independent`, `collision_awake_set_order_independent`);
+       `wake_wakes_whole_cycle`; `_build_cycles` makes each sleeping island one cycle (`build_cycles_island_cycle`,
+       `build_cycles_establishes_wf`).
+  § 3  `falls_asleep_only_if` + `countdown_needs_minawake` (`sweep_closed_form`, `check_closed_form`).
+  § 4  `wakes_if_*`: applied force / velocity (`_wake_kernel`; what `_tree_can_sleep` tests: `tree_can_sleep_refines`,
+       `can_sleep_zero_tol_iff`), contact, limited tendon, active equality — model level and on the generated launches,
+       all task orders.
+  § 5  `wake_order`: which value is written (`wake_tree_values`); the final VALUES depend on the task order (witness
+       file), the SET of awake trees does not (`awake_set_order_independent`, `collision_awake_set_order_independent`);
        `_wake_kernel` launches are fully order independent (`wake_kernel_order_independent`).
   § 6  `sleeping_tree_frozen_partial`.
   § 7  examples.
@@ -24,9 +29,14 @@
   (a) a launch = serial execution of its tasks in an arbitrary order; INSIDE a task reads and writes are one
       atomic step (the real `_wake_tree` walk is not atomic: two walks on one cycle can interleave).
   (b) one world; Int instead of int32.  A task's `tree_asleep_out` parameter is the current row for every
-      world index (`asArr`); only stores to row `w` are applied (`applyAsleep`).
+      world index (`asArr`); only stores to row `w` are applied (`applyAsleep`); `wake_tree_writes_row`: a
+      `_wake_tree` of world `w` only stores into row `w`.
   (c) inside ONE task that calls `_wake_tree` several times (`_wake_equality_kernel`, `_wake_tendon_kernel`) the
-      translation hands every call the PRE-TASK array; § 4 treats those kernels at task level only.
+      translation hands every call the PRE-TASK array (a later call does not see an earlier call's stores).  All
+      calls of one task store the same value and only wake, so `wakes_if_tendon_generated` /
+      `wakes_if_equality_generated` do not depend on it, but the exact write lists (1k–1n) do.
+  (d) `tree_awake` is an INPUT of the wake kernels (a snapshot made by `update_sleep` before the launch); the
+      theorems that need it consistent with `tree_asleep` say so (`hcons`, `hflags`).
 
   Findings recorded here rather than hidden:
   * wake values are order dependent (§ 5, `Props/C29Witness.lean`).
@@ -83,7 +93,7 @@ theorem wake_kernel_refines {K : Type} [Scalar K] (nbody ntree : Int) (body_tree
           (decide (tree_awake_in w t = 1) || !(Gen.Sleep._tree_can_sleep (K := K) nbody body_treeid dof_length tree_dofadr
             tree_dofnum tree_sleep_policy qvel_in qfrc_applied_in xfrc_applied_in w t (Scalar.lit 0 0))) t := by
   unfold Gen.Sleep._wake_kernel wakeKernelWrites
-  simp only [wake_tree_refines, renameAll_self]
+  simp only [wake_tree_refines, renameAll_self, lookupI_nil]
   by_cases h : tree_asleep_out w t ≥ 0
   · by_cases hc : (decide (tree_awake_in w t = 1) || !(Gen.Sleep._tree_can_sleep (K := K) nbody body_treeid dof_length
         tree_dofadr tree_dofnum tree_sleep_policy qvel_in qfrc_applied_in xfrc_applied_in w t (Scalar.lit 0 0))) = true
@@ -177,8 +187,8 @@ theorem wake_collision_refines {K : Type} [Scalar K] (ntree : Int) (body_treeid 
   have h0 : ¬ conid ≥ nacon_in 0 := by omega
   have hg1 : ¬ (contact_geom_in conid).c0 < 0 := by omega
   have hg2 : ¬ (contact_geom_in conid).c1 < 0 := by omega
-  simp only [wake_tree_refines, renameAll_self, h0, hg1, hg2, decide_false, Bool.or_self, Bool.false_eq_true, if_false,
-    List.nil_append]
+  simp only [wake_tree_refines, renameAll_self, lookupI_nil, h0, hg1, hg2, decide_false, Bool.or_self, Bool.false_eq_true,
+    if_false, List.nil_append]
   generalize contact_worldid_in conid = w
   generalize body_treeid (geom_bodyid (contact_geom_in conid).c0) = tree1
   generalize body_treeid (geom_bodyid (contact_geom_in conid).c1) = tree2
@@ -212,6 +222,96 @@ theorem wake_collision_inactive {K : Type} [Scalar K] (ntree : Int) (body_treeid
   · have hg : (contact_geom_in conid).c0 < 0 ∨ (contact_geom_in conid).c1 < 0 := by tauto
     have : (decide ((contact_geom_in conid).c0 < 0) || decide ((contact_geom_in conid).c1 < 0)) = true := by simpa using hg
     simp [h0, this]
+
+/-- (1k) **`_wake_tendon_trees`** (callee of the equality kernel): one `_wake_tree(t, wakeval)` — all on the array it
+    was handed — for every tree along tendon `tenid` whose `tree_awake` flag is 0 -/
+theorem wake_tendon_trees_refines {K : Type} [Scalar K] (ntree : Int)
+    (body_treeid jnt_bodyid geom_bodyid site_bodyid tendon_adr tendon_num wrap_type wrap_objid : Int → Int)
+    (tree_awake_in : Int → Int → Int) (w tenid v : Int) (arr : Int → Int → Int) :
+    Gen.Sleep._wake_tendon_trees (K := K) ntree body_treeid jnt_bodyid geom_bodyid site_bodyid tendon_adr tendon_num wrap_type
+        wrap_objid tree_awake_in w tenid v arr
+      = if tenid < 0 then [] else
+          tendonWakeWrites w ntree (arr w) (tree_awake_in w)
+            (tendonTrees (wrapTree body_treeid jnt_bodyid geom_bodyid site_bodyid wrap_type wrap_objid) (tendon_adr tenid)
+              (tendon_num tenid)) v :=
+  wake_tendon_trees_eq ntree body_treeid jnt_bodyid geom_bodyid site_bodyid tendon_adr tendon_num wrap_type wrap_objid
+    tree_awake_in w tenid v arr
+
+/-- (1l) **`_tendon_wake_val`**: the smallest countdown among the flag-1 trees of the tendon (0: none) -/
+theorem tendon_wake_val_refines {K : Type} [Scalar K]
+    (body_treeid jnt_bodyid geom_bodyid site_bodyid tendon_adr tendon_num wrap_type wrap_objid : Int → Int)
+    (tree_awake_in : Int → Int → Int) (w tenid : Int) (arr : Int → Int → Int) :
+    Gen.Sleep._tendon_wake_val (K := K) body_treeid jnt_bodyid geom_bodyid site_bodyid tendon_adr tendon_num wrap_type
+        wrap_objid tree_awake_in w tenid arr
+      = if tenid < 0 then 0 else
+          tendonWakeVal (arr w) (tree_awake_in w)
+            (tendonTrees (wrapTree body_treeid jnt_bodyid geom_bodyid site_bodyid wrap_type wrap_objid) (tendon_adr tenid)
+              (tendon_num tenid)) :=
+  tendon_wake_val_eq body_treeid jnt_bodyid geom_bodyid site_bodyid tendon_adr tendon_num wrap_type wrap_objid tree_awake_in
+    w tenid arr
+
+/-- (1m) **`_wake_tendon_kernel`**, thread `(w, tenid)`: pass 1 scans the tendon's trees (`tendonScan`: is any flag 1;
+    the wake value, starting from −11); if so AND the tendon's limit is active (`_tendon_limit_active`), pass 2
+    wakes every flag-0 tree of the tendon with that value. -/
+theorem wake_tendon_kernel_refines {K : Type} [Scalar K] (ntree ntendon : Int)
+    (body_treeid jnt_bodyid geom_bodyid site_bodyid tendon_adr tendon_num tendon_limited : Int → Int)
+    (tendon_range : Int → Int → V2 K) (tendon_margin : Int → Int → K) (wrap_type wrap_objid : Int → Int)
+    (ten_length_in : Int → Int → K) (tree_awake_in arr : Int → Int → Int) (sh0 sh1 w tenid : Int) :
+    Gen.Sleep._wake_tendon_kernel (K := K) ntree ntendon body_treeid jnt_bodyid geom_bodyid site_bodyid tendon_adr tendon_num
+        tendon_limited tendon_range tendon_margin wrap_type wrap_objid ten_length_in tree_awake_in arr sh0 sh1 w tenid
+      = if (tendonScan (arr w) (tree_awake_in w) (tendonTrees (wrapTree body_treeid jnt_bodyid geom_bodyid site_bodyid
+              wrap_type wrap_objid) (tendon_adr tenid) (tendon_num tenid))).1 = 1
+            ∧ Gen.Sleep._tendon_limit_active (K := K) tendon_limited tendon_range tendon_margin ten_length_in w tenid sh0 sh1 = true
+        then tendonWakeWrites w ntree (arr w) (tree_awake_in w)
+          (tendonTrees (wrapTree body_treeid jnt_bodyid geom_bodyid site_bodyid wrap_type wrap_objid) (tendon_adr tenid)
+            (tendon_num tenid))
+          (tendonScan (arr w) (tree_awake_in w) (tendonTrees (wrapTree body_treeid jnt_bodyid geom_bodyid site_bodyid
+              wrap_type wrap_objid) (tendon_adr tenid) (tendon_num tenid))).2
+        else [] :=
+  wake_tendon_kernel_eq ntree ntendon body_treeid jnt_bodyid geom_bodyid site_bodyid tendon_adr tendon_num tendon_limited
+    tendon_range tendon_margin wrap_type wrap_objid ten_length_in tree_awake_in arr sh0 sh1 w tenid
+
+/-- (1m') pass 1 in closed form: `any_awake = 1` iff some tree of the tendon has flag 1; the wake value is ≤ −11,
+    and it IS −11 whenever the flag-1 trees' countdowns are ≥ −11 (always, for legal states): the tendon kernel never
+    hands on a neighbour's countdown. -/
+theorem tendon_scan_closed_form (a awake : Int → Int) (trees : List Int) :
+    ((tendonScan a awake trees).1 = 1 ↔ ∃ t ∈ trees, t ≥ 0 ∧ awake t = 1) ∧ (tendonScan a awake trees).2 ≤ AWAKE_VAL ∧
+    ((∀ t ∈ trees, t ≥ 0 → awake t = 1 → AWAKE_VAL ≤ a t) → (tendonScan a awake trees).2 = AWAKE_VAL) :=
+  tendonScan_spec a awake trees
+
+/-- (1n) **`_wake_equality_kernel`**, thread `(w, eqid)`: inactive → nothing.  CONNECT / WELD / JOINT: with the two
+    trees `eqTrees` and their states (flag, or −1 = STATIC if there is no tree) → `eqBodyWrites`: nothing unless one
+    of them is asleep (flag 0), none is static and they differ; both asleep: wake both with −11 iff their
+    `_sleep_cycle` ids differ; one asleep: wake it with −11.  TENDON (3): with `w1, w2 = _tendon_wake_val` of the two
+    tendons: if one is negative, `_wake_tendon_trees` on both tendons with `min(−11, the negative ones)`.  Other
+    types (FLEX…): nothing. -/
+theorem wake_equality_kernel_refines {K : Type} [Scalar K] (ntree neq : Int)
+    (body_treeid jnt_bodyid geom_bodyid site_bodyid eq_type eq_obj1id eq_obj2id eq_objtype tendon_adr tendon_num wrap_type
+      wrap_objid : Int → Int) (eq_active_in : Int → Int → Bool) (tree_awake_in arr : Int → Int → Int) (w eqid : Int) :
+    Gen.Sleep._wake_equality_kernel (K := K) ntree neq body_treeid jnt_bodyid geom_bodyid site_bodyid eq_type eq_obj1id eq_obj2id
+        eq_objtype tendon_adr tendon_num wrap_type wrap_objid eq_active_in tree_awake_in arr w eqid
+      = if eq_active_in w eqid = false then []
+        else if eq_type eqid = 0 ∨ eq_type eqid = 1 ∨ eq_type eqid = 2 then
+          let tt := eqTrees body_treeid jnt_bodyid site_bodyid (eq_type eqid) (eq_objtype eqid) (eq_obj1id eqid) (eq_obj2id eqid)
+          eqBodyWrites w ntree (arr w) tt.1 tt.2
+            (if tt.1 ≥ 0 then tree_awake_in w tt.1 else -1) (if tt.2 ≥ 0 then tree_awake_in w tt.2 else -1)
+            (Gen.Sleep._sleep_cycle (K := K) arr ntree w tt.1) (Gen.Sleep._sleep_cycle (K := K) arr ntree w tt.2)
+        else if eq_type eqid = 3 then
+          let w1 := Gen.Sleep._tendon_wake_val (K := K) body_treeid jnt_bodyid geom_bodyid site_bodyid tendon_adr tendon_num wrap_type
+            wrap_objid tree_awake_in w (eq_obj1id eqid) arr
+          let w2 := Gen.Sleep._tendon_wake_val (K := K) body_treeid jnt_bodyid geom_bodyid site_bodyid tendon_adr tendon_num wrap_type
+            wrap_objid tree_awake_in w (eq_obj2id eqid) arr
+          if w1 < 0 ∨ w2 < 0 then
+            let v1 : Int := if w1 < 0 ∧ w1 < -11 then w1 else -11
+            let v : Int := if w2 < 0 ∧ w2 < v1 then w2 else v1
+            Gen.Sleep._wake_tendon_trees (K := K) ntree body_treeid jnt_bodyid geom_bodyid site_bodyid tendon_adr tendon_num wrap_type
+                wrap_objid tree_awake_in w (eq_obj1id eqid) v arr
+              ++ Gen.Sleep._wake_tendon_trees (K := K) ntree body_treeid jnt_bodyid geom_bodyid site_bodyid tendon_adr tendon_num
+                wrap_type wrap_objid tree_awake_in w (eq_obj2id eqid) v arr
+          else []
+        else [] :=
+  wake_equality_kernel_eq ntree neq body_treeid jnt_bodyid geom_bodyid site_bodyid eq_type eq_obj1id eq_obj2id eq_objtype
+    tendon_adr tendon_num wrap_type wrap_objid eq_active_in tree_awake_in arr w eqid
 
 /-! ### launches of the generated kernels are the model's launches -/
 
@@ -247,5 +347,858 @@ theorem sweep_launch_refines {K : Type} [Scalar K] (nbody : Int) (body_treeid : 
   rw [sweep_refines]
   exact applyAsleep_sweepWrites w s' (fun t => Gen.Sleep._tree_can_sleep (K := K) nbody body_treeid dof_length tree_dofadr
     tree_dofnum tree_sleep_policy qvel_in qfrc_applied_in xfrc_applied_in w t (opt_sleep_tolerance (Int.tmod w shape0))) t
+
+/-- (1o) the `_check_island_can_sleep` launch on the `island_can_sleep` row (`atomic_min` applied to the CURRENT
+    cell), tasks in ANY order -/
+theorem check_launch_refines {K : Type} [Scalar K] (ntree : Int) (nisland_in : Int → Int) (tree_island_in : Int → Int → Int)
+    (w : Int) (order : List Int) (s ics : List Int) :
+    order.foldl (fun ics (t : Int) => applyIcs w ics (Gen.Sleep._check_island_can_sleep (K := K) ntree nisland_in (asArr s)
+        tree_island_in (asArr ics) w t)) ics
+      = check (tree_island_in w) (nisland_in w) s order ics := by
+  unfold check
+  induction order generalizing ics with
+  | nil => rfl
+  | cons a l ih =>
+    rw [List.foldl_cons, List.foldl_cons, check_refines]
+    have : applyIcs w ics (checkWrites (K := K) w (nisland_in w) (tree_island_in w a) (asArr s w a))
+        = checkTask (tree_island_in w) (nisland_in w) s ics a := by
+      unfold checkWrites checkTask
+      show applyIcs w ics (if 0 ≤ tree_island_in w a ∧ tree_island_in w a < nisland_in w ∧ rd s a < -1 then _ else _) = _
+      by_cases h : 0 ≤ tree_island_in w a ∧ tree_island_in w a < nisland_in w ∧ rd s a < -1
+      · rw [if_pos h, if_pos h]; simp [applyIcs, applyIcs1]
+      · rw [if_neg h, if_neg h]; rfl
+    rw [this]
+    exact ih _
+
+/-! ## 2. Well-formedness -/
+
+/-- (2a) **wake_wakes_whole_cycle**: on a well-formed state, `_wake_tree` on a sleeping tree `t` stores the wake
+    value into EVERY tree of `t`'s cycle and into no other cell (whatever the value; for `v < 0`: it wakes
+    exactly the whole cycle). -/
+theorem wake_wakes_whole_cycle (s : List Int) (hwf : WF s) (t v u : Int) (h0 : 0 ≤ t) (h1 : t < s.length) (h2 : rd s t ≥ 0) :
+    rd (wakeTree s t v) u = if onCycle s.length (rd s) t u then v else rd s u := by
+  have hiff := onCycle_iff_Cyc ((WF_iff s).mp hwf) s.length rfl t u h0 h1 h2
+  obtain ⟨a, b⟩ := rd_wakeTree_cycle s hwf t v u h0 h1 h2
+  by_cases hc : onCycle s.length (rd s) t u
+  · rw [if_pos hc]; exact a (hiff.mp hc)
+  · rw [if_neg hc]; exact b (fun h => hc (hiff.mpr h))
+
+/-- (2b) `_wake_tree` with a negative value keeps the state well-formed (the other cycles are untouched) -/
+theorem wake_preserves_wf (s : List Int) (hwf : WF s) (t v : Int) (hv : v < 0) : WF (wakeTree s t v) :=
+  Intact.wf hwf (wake_step s s hwf (Intact.refl s) t v hv).1
+
+/-- (2c) **`_build_cycles` makes every island it puts to sleep ONE cycle**: with `m₀ < … < m_k` the trees of
+    island `i` (`i < nisland`, `island_can_sleep[i] = 1`), `tree_asleep[m_j] = m_{(j+1) mod (k+1)}` afterwards. -/
+theorem build_cycles_island_cycle (island : Int → Int) (nisland : Int) (ics : Int → Int) (s : List Int) (i : Int)
+    (hi0 : 0 ≤ i) (hi1 : i < nisland) (hc : ics i = 1) (j : Nat) (hj : j < (members s.length island i).length) :
+    rd (buildCycles island nisland ics s) ((members s.length island i).getD j (-1))
+      = (members s.length island i).getD ((j + 1) % (members s.length island i).length) (-1) :=
+  buildCycles_island island nisland ics s i hi0 hi1 hc j hj
+
+/-- (2d) closed form of `_build_cycles` on `tree_asleep`: a tree of a sleeping island gets its successor in the
+    island; a tree of an island that may not sleep is untouched; a tree without island becomes a self-cycle iff
+    its countdown was −1. -/
+theorem build_cycles_closed_form (island : Int → Int) (nisland : Int) (ics : Int → Int) (s : List Int) :
+    (buildCycles island nisland ics s).length = s.length ∧
+    ∀ u : Int, 0 ≤ u → u < s.length →
+      ((0 ≤ island u ∧ island u < nisland) → ics (island u) = 1 →
+        ∃ j, j < (members s.length island (island u)).length ∧ (members s.length island (island u)).getD j (-1) = u ∧
+          rd (buildCycles island nisland ics s) u
+            = (members s.length island (island u)).getD ((j + 1) % (members s.length island (island u)).length) (-1)) ∧
+      ((0 ≤ island u ∧ island u < nisland) → ics (island u) ≠ 1 → rd (buildCycles island nisland ics s) u = rd s u) ∧
+      ((island u < 0 ∨ island u ≥ nisland) → rd (buildCycles island nisland ics s) u = if rd s u = -1 then u else rd s u) :=
+  buildCycles_spec island nisland ics s
+
+/-- (2e) **`_build_cycles` establishes WF** for the trees it puts to sleep and keeps it for the others —
+    PROVIDED no tree that is already asleep lies in an island that is put to sleep (hypothesis `H`; without it
+    the statement is false: `build_cycles_breaks_cycle_witness`). -/
+theorem build_cycles_establishes_wf (island : Int → Int) (nisland : Int) (ics : Int → Int) (s : List Int) (hwf : WF s)
+    (H : ∀ u : Int, 0 ≤ u → u < s.length → 0 ≤ island u → island u < nisland → ics (island u) = 1 → rd s u < 0) :
+    WF (buildCycles island nisland ics s) :=
+  buildCycles_wf island nisland ics s hwf H
+
+/-- (2f) **wellformed_invariant**: every operation of the model keeps WF — `_wake_tree` (negative value), the
+    `_wake_kernel` launch, the collision launch (wake values read from trees that are awake), the sweep, and
+    `_build_cycles` (under `H` of (2e)); all launches in ANY task order. -/
+theorem wellformed_invariant (s : List Int) (hwf : WF s) :
+    (∀ t v : Int, v < 0 → WF (wakeTree s t v)) ∧
+    (∀ (tasks : List (Int × Int)), (∀ tv ∈ tasks, tv.2 < 0) → WF (wakeLaunch tasks s)) ∧
+    (∀ (trigger : Int → Bool) (order : List Int), WF (wakeKernelLaunch trigger order s)) ∧
+    (∀ (tasks : List (Option (Int × Int))),
+      (∀ t src, some (t, src) ∈ tasks → 0 ≤ src ∧ src < s.length ∧ rd s src < 0) → WF (collisionLaunch tasks s)) ∧
+    (∀ (can : Int → Bool) (order : List Int), WF (sweep can order s)) ∧
+    (∀ (island : Int → Int) (nisland : Int) (ics : Int → Int),
+      (∀ u : Int, 0 ≤ u → u < s.length → 0 ≤ island u → island u < nisland → ics (island u) = 1 → rd s u < 0) →
+      WF (buildCycles island nisland ics s)) := by
+  refine ⟨fun t v hv => wake_preserves_wf s hwf t v hv, fun tasks hv => ?_, fun trigger order => ?_, fun tasks hsrc => ?_,
+    fun can order => ?_, fun island nisland ics H => buildCycles_wf island nisland ics s hwf H⟩
+  · exact Intact.wf hwf (wakeLaunch_awake s hwf tasks hv s (Intact.refl s)).1
+  · exact Intact.wf hwf (wakeKernelLaunch_spec s hwf trigger order s (Intact.refl s) (fun _ _ _ => Or.inl rfl)).1
+  · exact Intact.wf hwf (collisionLaunch_awake s hwf tasks hsrc s (Intact.refl s)).1
+  · exact Intact.wf hwf (sweep_intact s s hwf (Intact.refl s) can order)
+
+/-! ## 3. Falling asleep -/
+
+/-- (3a) the sweep launch in closed form, ANY duplicate-free order: every awake tree's countdown moves by
+    `sweepVal` (quiet → one step toward −1, stopping at −1; not quiet → −11), sleeping trees are untouched -/
+theorem sweep_closed_form (can : Int → Bool) (order : List Int) (hnd : order.Nodup) (s : List Int) (u : Int) :
+    rd (sweep can order s) u = if u ∈ order ∧ 0 ≤ u ∧ u < s.length then sweepVal (can u) (rd s u) else rd s u :=
+  rd_sweep can order hnd s u
+
+/-- (3b) the check launch in closed form, ANY order, from `island_can_sleep = ones`: island `i` keeps its 1
+    iff none of its trees has a countdown below −1 -/
+theorem check_closed_form (island : Int → Int) (nisland : Int) (s : List Int) (order : List Int) (n : Nat) (i : Int)
+    (hi0 : 0 ≤ i) (hi1 : i < n) :
+    rd (check island nisland s order (List.replicate n 1)) i
+      = if ∃ t ∈ order, island t = i ∧ i < nisland ∧ rd s t < -1 then 0 else 1 := by
+  rw [rd_check island nisland s order _ i hi0 (by simpa using hi1), rd_replicate n 1 i hi0 hi1]
+  rfl
+
+/-- (3c) **falls_asleep_only_if**.  One call of `sleep()` = sweep (order `o1`), check (order `o2`, from ones),
+    `_build_cycles`; both orders arbitrary enumerations of all trees (`o1` without duplicates), `nisland ≤ ntree`.
+    If tree `u` was AWAKE before and is ASLEEP after, then
+    * `u` was quiet in this sweep (`can u`: below tolerance, no applied force, policy allows),
+    * its countdown was −2 or −1 before the sweep and −1 after it,
+    * if `u` has a valid island: EVERY tree of that island has, after the sweep, a countdown ≥ −1 —
+      i.e. exactly −1, or it is a tree that was already asleep (`_check_island_can_sleep` does not veto those). -/
+theorem falls_asleep_only_if (can : Int → Bool) (island : Int → Int) (nisland : Int) (o1 o2 : List Int) (s : List Int)
+    (hnd : o1.Nodup) (hall1 : ∀ t : Int, 0 ≤ t → t < s.length → t ∈ o1) (hall2 : ∀ t : Int, 0 ≤ t → t < s.length → t ∈ o2)
+    (hnisl : nisland ≤ s.length) (u : Int) (hu0 : 0 ≤ u) (hu1 : u < s.length)
+    (hawake : rd s u < 0) (hasleep : rd (sleepStep can island nisland o1 o2 s) u ≥ 0) :
+    can u = true ∧ (rd s u = -2 ∨ rd s u = -1) ∧ rd (sweep can o1 s) u = -1 ∧
+    ((0 ≤ island u ∧ island u < nisland) →
+      ∀ t : Int, 0 ≤ t → t < s.length → island t = island u → rd (sweep can o1 s) t ≥ -1) := by
+  unfold sleepStep at hasleep
+  simp only [] at hasleep
+  have hlen : (sweep can o1 s).length = s.length := length_sweep can o1 s
+  have hs1 : rd (sweep can o1 s) u = sweepVal (can u) (rd s u) := by
+    rw [rd_sweep can o1 hnd s u, if_pos ⟨hall1 u hu0 hu1, hu0, hu1⟩]
+  have hs1neg : rd (sweep can o1 s) u < 0 := by rw [hs1]; exact sweepVal_neg _ _ hawake
+  obtain ⟨-, hspec⟩ := buildCycles_spec island nisland
+    (rd (check island nisland (sweep can o1 s) o2 (List.replicate s.length 1))) (sweep can o1 s)
+  obtain ⟨-, sB, sC⟩ := hspec u hu0 (by rw [hlen]; exact hu1)
+  -- island_can_sleep of a valid island in closed form
+  have hics : ∀ i : Int, 0 ≤ i → i < nisland →
+      rd (check island nisland (sweep can o1 s) o2 (List.replicate s.length 1)) i = 1 →
+      ∀ t : Int, 0 ≤ t → t < s.length → island t = i → rd (sweep can o1 s) t ≥ -1 := by
+    intro i hi0 hi1 h1 t ht0 ht1 hti
+    rw [check_closed_form island nisland _ o2 s.length i hi0 (by omega)] at h1
+    by_contra hlt
+    rw [if_pos ⟨t, hall2 t ht0 ht1, hti, hi1, by omega⟩] at h1
+    omega
+  -- after the sweep the countdown is −1
+  have hm1 : rd (sweep can o1 s) u = -1 ∧
+      ((0 ≤ island u ∧ island u < nisland) →
+        ∀ t : Int, 0 ≤ t → t < s.length → island t = island u → rd (sweep can o1 s) t ≥ -1) := by
+    by_cases hv : 0 ≤ island u ∧ island u < nisland
+    · by_cases hc : rd (check island nisland (sweep can o1 s) o2 (List.replicate s.length 1)) (island u) = 1
+      · have hall := hics (island u) hv.1 hv.2 hc
+        have := hall u hu0 hu1 rfl
+        exact ⟨by omega, fun _ => hall⟩
+      · rw [sB hv hc] at hasleep; omega
+    · have hinv : island u < 0 ∨ island u ≥ nisland := by omega
+      rw [sC hinv] at hasleep
+      by_cases h1 : rd (sweep can o1 s) u = -1
+      · exact ⟨h1, fun h => absurd h hv⟩
+      · rw [if_neg h1] at hasleep; omega
+  refine ⟨?_, ?_, hm1.1, hm1.2⟩
+  · by_contra hc
+    have : can u = false := by simpa using hc
+    rw [hs1, this] at hm1
+    unfold sweepVal AWAKE_VAL MINAWAKE at hm1
+    rw [if_neg (by omega)] at hm1
+    simp at hm1
+  · have h := hm1.1
+    rw [hs1] at h
+    unfold sweepVal AWAKE_VAL MINAWAKE at h
+    rw [if_neg (by omega)] at h
+    cases hcan : can u
+    · rw [hcan] at h; simp at h
+    · rw [hcan] at h
+      simp only [if_true] at h
+      split at h <;> omega
+
+/-- (3d) the countdown of a tree that stays awake, started at −11 (initial state, or the reset the sweep
+    performs whenever the tree is not quiet), after `k` sweeps: `−11 + min(10, number of consecutive quiet
+    sweeps immediately before)`. -/
+theorem countdown_closed_form (c : Nat → Bool) (k : Nat) :
+    countdown c AWAKE_VAL k = AWAKE_VAL + min 10 (trail c k : Int) := countdown_closed c k
+
+/-- (3e) **countdown_needs_minawake** (induction over sweeps).  Let `x j` be the countdown of a tree BEFORE sweep
+    `j`, with `x 0 ≤ −11` and, between sweeps, the countdown only ever lowered (`x (j+1) ≤ sweepVal (c j) (x j)`:
+    this is what the wake kernels do to a tree that stays awake — `_wake_tree` on an awake tree stores the wake
+    value only if it is smaller).  If `x k = −1` — the only countdown from which `_build_cycles` puts a tree to
+    sleep, (3c) — then `k ≥ MJ_MINAWAKE = 10` and the last 10 sweeps were all quiet. -/
+theorem countdown_needs_minawake (c : Nat → Bool) (x : Nat → Int) (hx0 : x 0 ≤ AWAKE_VAL)
+    (hstep : ∀ j, x (j + 1) ≤ sweepVal (c j) (x j)) (k : Nat) (hk : x k = -1) :
+    10 ≤ k ∧ ∀ j, k - 10 ≤ j → j < k → c j = true := by
+  have hle : ∀ j, x j ≤ countdown c AWAKE_VAL j ∧ x j < 0 := by
+    intro j
+    induction j with
+    | zero => exact ⟨hx0, by unfold AWAKE_VAL MINAWAKE at hx0; omega⟩
+    | succ j ih =>
+      have hcd : countdown c AWAKE_VAL j < 0 := by
+        rw [countdown_closed]; unfold AWAKE_VAL MINAWAKE; omega
+      have h1 := sweepVal_mono (c j) _ _ ih.1 hcd
+      have h2 := sweepVal_neg (c j) _ ih.2
+      have := hstep j
+      exact ⟨le_trans this h1, by omega⟩
+  have := (hle k).1
+  rw [hk, countdown_closed] at this
+  unfold AWAKE_VAL MINAWAKE at this
+  have ht : 10 ≤ trail c k := by omega
+  exact trail_ge c k 10 ht
+
+/-! ## 4. Waking -/
+
+/-- (4a) **wakes_if (applied force / velocity)**: after the `_wake_kernel` launch, in ANY task order that
+    contains tree `t`, a tree whose trigger holds — `tree_awake[t] == 1`, or `_tree_can_sleep(t, tolerance 0)`
+    false: some `xfrc_applied` component of one of its bodies ≠ 0, some `qfrc_applied` of its dofs ≠ 0, some
+    `qvel` of its dofs ≠ 0, or policy NEVER — is awake (state well-formed before the launch). -/
+theorem wakes_if_triggered (s : List Int) (hwf : WF s) (trigger : Int → Bool) (order : List Int) (t : Int)
+    (ht : t ∈ order) (h0 : 0 ≤ t) (h1 : t < s.length) (htr : trigger t = true) :
+    rd (wakeKernelLaunch trigger order s) t < 0 := by
+  obtain ⟨-, -, h⟩ := wakeKernelLaunch_spec s hwf trigger order s (Intact.refl s) (fun _ _ _ => Or.inl rfl)
+  rw [h t h0 h1]
+  by_cases ha : rd s t < 0
+  · exact Or.inl ha
+  · exact Or.inr ⟨t, ht, htr, h0, h1, by omega, Cyc.refl _ _⟩
+
+/-- (4a') … and with it its whole sleep cycle -/
+theorem wakes_if_triggered_cycle (s : List Int) (hwf : WF s) (trigger : Int → Bool) (order : List Int) (t u : Int)
+    (ht : t ∈ order) (h0 : 0 ≤ t) (h1 : t < s.length) (hs : rd s t ≥ 0) (htr : trigger t = true)
+    (hu0 : 0 ≤ u) (hu1 : u < s.length) (hc : onCycle s.length (rd s) t u) :
+    rd (wakeKernelLaunch trigger order s) u = AWAKE_VAL := by
+  obtain ⟨-, hval, h⟩ := wakeKernelLaunch_spec s hwf trigger order s (Intact.refl s) (fun _ _ _ => Or.inl rfl)
+  have hcy := (onCycle_iff_Cyc ((WF_iff s).mp hwf) s.length rfl t u h0 h1 hs).mp hc
+  have hneg : rd (wakeKernelLaunch trigger order s) u < 0 := (h u hu0 hu1).mpr (Or.inr ⟨t, ht, htr, h0, h1, hs, hcy⟩)
+  rcases hval u hu0 hu1 with e | e
+  · -- untouched: then `u` would be asleep
+    obtain ⟨k, hk⟩ := hcy
+    have := (orbit_sleeping ((WF_iff s).mp hwf) k t h0 h1 hs).2.2
+    rw [hk] at this
+    omega
+  · exact e.1
+
+/-- (4b) **wakes_if (contact)**: after the collision launch (ANY order), the tree addressed by a task — the
+    tree whose `tree_awake` flag is not 1, in a contact whose other tree has flag 1 — is awake, provided the
+    flag-1 trees are really awake before the launch (`tree_awake` consistent with `tree_asleep`). -/
+theorem wakes_if_contact (s : List Int) (hwf : WF s) (tasks : List (Option (Int × Int)))
+    (hsrc : ∀ t src, some (t, src) ∈ tasks → 0 ≤ src ∧ src < s.length ∧ rd s src < 0)
+    (t src : Int) (hm : some (t, src) ∈ tasks) (h0 : 0 ≤ t) (h1 : t < s.length) :
+    rd (collisionLaunch tasks s) t < 0 := by
+  obtain ⟨-, h⟩ := collisionLaunch_awake s hwf tasks hsrc s (Intact.refl s)
+  rw [h t h0 h1]
+  by_cases ha : rd s t < 0
+  · exact Or.inl ha
+  · exact Or.inr ⟨t, src, hm, h0, h1, by omega, Cyc.refl _ _⟩
+
+/-! ### what the triggers test, and the generated launches -/
+
+/-- (4c) **`_tree_can_sleep` in closed form** (every scalar type): policy ≠ NEVER, no nonzero `xfrc_applied`
+    component on a body of the tree, no nonzero `qfrc_applied` on its dofs, every dof slow
+    (`|dof_length·qvel| < tol` for `tol > 0`, `qvel == 0` for `tol ≤ 0`). -/
+theorem tree_can_sleep_refines {K : Type} [Scalar K] (nbody : Int) (body_treeid : Int → Int) (dof_length : Int → K)
+    (tree_dofadr tree_dofnum tree_sleep_policy : Int → Int) (qvel_in qfrc_applied_in : Int → Int → K)
+    (xfrc_applied_in : Int → Int → V6 K) (w t : Int) (tol : K) :
+    Gen.Sleep._tree_can_sleep (K := K) nbody body_treeid dof_length tree_dofadr tree_dofnum tree_sleep_policy qvel_in
+        qfrc_applied_in xfrc_applied_in w t tol
+      = canSleepSpec nbody body_treeid dof_length (tree_dofadr t) (tree_dofnum t) (tree_sleep_policy t) (qvel_in w)
+          (qfrc_applied_in w) (xfrc_applied_in w) t tol :=
+  tree_can_sleep_eq nbody body_treeid dof_length tree_dofadr tree_dofnum tree_sleep_policy qvel_in qfrc_applied_in
+    xfrc_applied_in w t tol
+
+/-- (4d) over ℝ, at tolerance 0 (the test of `_wake_kernel`): the tree "can sleep" iff its policy is not NEVER and
+    all applied forces and all velocities of the tree are exactly zero -/
+theorem can_sleep_zero_tol_iff (nbody : Int) (body_treeid : Int → Int) (dof_length : Int → ℝ) (adr num policy : Int)
+    (qvel qfrc : Int → ℝ) (xfrc : Int → V6 ℝ) (t : Int) :
+    canSleepSpec nbody body_treeid dof_length adr num policy qvel qfrc xfrc t (Scalar.lit 0 0 : ℝ) = true ↔
+      policy ≠ 1 ∧
+      (∀ b : Nat, (b : Int) < nbody → body_treeid b = t →
+        (xfrc b).c0 = 0 ∧ (xfrc b).c1 = 0 ∧ (xfrc b).c2 = 0 ∧ (xfrc b).c3 = 0 ∧ (xfrc b).c4 = 0 ∧ (xfrc b).c5 = 0) ∧
+      (∀ d : Nat, (d : Int) < num → qfrc (adr + d) = 0 ∧ qvel (adr + d) = 0) := by
+  unfold canSleepSpec anyNonzero6
+  by_cases hp : policy = 1
+  · simp [hp]
+  · simp only [hp, if_false, ne_eq, not_false_eq_true, true_and]
+    have hgt : Scalar.gt (Scalar.lit 0 0 : ℝ) (Scalar.lit 0 0 : ℝ) = false := by
+      rw [Bool.eq_false_iff]; simp
+    simp only [hgt, Bool.false_eq_true, if_false]
+    constructor
+    · intro h
+      by_cases h1 : (List.range nbody.toNat).any (fun (b : Nat) => decide (body_treeid b = t) &&
+          (Scalar.bne (xfrc b).c0 (Scalar.lit 0 0 : ℝ) || Scalar.bne (xfrc b).c1 (Scalar.lit 0 0 : ℝ) || Scalar.bne (xfrc b).c2 (Scalar.lit 0 0 : ℝ)
+            || Scalar.bne (xfrc b).c3 (Scalar.lit 0 0 : ℝ) || Scalar.bne (xfrc b).c4 (Scalar.lit 0 0 : ℝ) || Scalar.bne (xfrc b).c5 (Scalar.lit 0 0 : ℝ))) = true
+      · rw [if_pos h1] at h; exact absurd h (by simp)
+      · rw [if_neg h1] at h
+        by_cases h2 : (List.range num.toNat).any (fun (d : Nat) => Scalar.bne (qfrc (adr + d)) (Scalar.lit 0 0 : ℝ)) = true
+        · rw [if_pos h2] at h; exact absurd h (by simp)
+        · rw [if_neg h2] at h
+          by_cases h3 : (List.range num.toNat).any (fun (d : Nat) => Scalar.bne (qvel (adr + d)) (Scalar.lit 0 0 : ℝ)) = true
+          · rw [if_pos h3] at h; exact absurd h (by simp)
+          · simp only [List.any_eq_true, List.mem_range, not_exists, not_and, Bool.and_eq_true, decide_eq_true_eq,
+              Bool.or_eq_true, sbne, slit] at h1 h2 h3
+            norm_num at h1 h2 h3
+            refine ⟨fun b hb hbt => ?_, fun d hd => ⟨h2 d (by omega), h3 d (by omega)⟩⟩
+            have := h1 b (by omega) hbt
+            tauto
+    · rintro ⟨h1, h2⟩
+      rw [if_neg, if_neg, if_neg]
+      · simp only [List.any_eq_true, List.mem_range, not_exists, not_and, sbne, slit]
+        intro d hd; norm_num; exact (h2 d (by omega)).2
+      · simp only [List.any_eq_true, List.mem_range, not_exists, not_and, sbne, slit]
+        intro d hd; norm_num; exact (h2 d (by omega)).1
+      · simp only [List.any_eq_true, List.mem_range, not_exists, not_and, Bool.and_eq_true, decide_eq_true_eq,
+          Bool.or_eq_true, sbne, slit]
+        intro b hb hbt
+        obtain ⟨a0, a1, a2, a3, a4, a5⟩ := h1 b (by omega) hbt
+        norm_num [a0, a1, a2, a3, a4, a5]
+
+/-- (4e) **wakes_if (generated launch)**, ℝ: run the GENERATED `_wake_kernel` over the trees in ANY order containing
+    `t`, on a well-formed state.  If some dof of tree `t` has nonzero velocity, or nonzero `qfrc_applied`, or some
+    body of the tree a nonzero `xfrc_applied` component (or the policy is NEVER, or `tree_awake[t] == 1`) — i.e.
+    NOT (4d) — then `t` is awake afterwards. -/
+theorem wakes_if_applied_force_or_velocity (nbody : Int) (body_treeid : Int → Int) (dof_length : Int → ℝ)
+    (tree_dofadr tree_dofnum tree_sleep_policy : Int → Int) (qvel_in qfrc_applied_in : Int → Int → ℝ)
+    (xfrc_applied_in : Int → Int → V6 ℝ) (tree_awake_in : Int → Int → Int) (w : Int) (order : List Int) (s : List Int)
+    (hwf : WF s) (t : Int) (ht : t ∈ order) (h0 : 0 ≤ t) (h1 : t < s.length)
+    (htrig : tree_awake_in w t = 1 ∨
+      ¬ (tree_sleep_policy t ≠ 1 ∧
+        (∀ b : Nat, (b : Int) < nbody → body_treeid b = t →
+          (xfrc_applied_in w b).c0 = 0 ∧ (xfrc_applied_in w b).c1 = 0 ∧ (xfrc_applied_in w b).c2 = 0 ∧
+          (xfrc_applied_in w b).c3 = 0 ∧ (xfrc_applied_in w b).c4 = 0 ∧ (xfrc_applied_in w b).c5 = 0) ∧
+        (∀ d : Nat, (d : Int) < tree_dofnum t →
+          qfrc_applied_in w (tree_dofadr t + d) = 0 ∧ qvel_in w (tree_dofadr t + d) = 0))) :
+    rd (launchK w (fun arr (t : Int) => Gen.Sleep._wake_kernel (K := ℝ) nbody s.length body_treeid dof_length tree_dofadr
+        tree_dofnum tree_sleep_policy qvel_in qfrc_applied_in xfrc_applied_in tree_awake_in arr w t) order s) t < 0 := by
+  rw [wake_kernel_launch_refines]
+  apply wakes_if_triggered s hwf _ order t ht h0 h1
+  rcases htrig with h | h
+  · simp [h]
+  · have : Gen.Sleep._tree_can_sleep (K := ℝ) nbody body_treeid dof_length tree_dofadr tree_dofnum tree_sleep_policy qvel_in
+        qfrc_applied_in xfrc_applied_in w t (Scalar.lit 0 0) = false := by
+      rw [Bool.eq_false_iff, tree_can_sleep_refines]
+      intro hc
+      exact h ((can_sleep_zero_tol_iff _ _ _ _ _ _ _ _ _ _).mp hc)
+    simp only [this, Bool.not_false, Bool.or_true]
+
+/-- (4f) the `_wake_collision_kernel` launch on the list state, threads in ANY order: thread `conid` does to
+    world `w` what `collisionTaskOf` says (nothing if inactive or if the contact belongs to another world) -/
+theorem wake_collision_launch_refines {K : Type} [Scalar K] (body_treeid geom_bodyid : Int → Int)
+    (tree_awake_in : Int → Int → Int) (contact_geom_in : Int → I2) (contact_worldid_in nacon_in : Int → Int)
+    (w : Int) (order : List Int) (s : List Int) :
+    launchK w (fun arr (conid : Int) => Gen.Sleep._wake_collision_kernel (K := K) s.length body_treeid geom_bodyid tree_awake_in
+        contact_geom_in contact_worldid_in nacon_in arr conid) order s
+      = collisionLaunch (order.map (collisionTaskOf w body_treeid geom_bodyid tree_awake_in contact_geom_in contact_worldid_in
+          nacon_in)) s := by
+  unfold collisionLaunch
+  rw [List.foldl_map]
+  apply launchK_eq_inv w _ _ (fun s' => s'.length = s.length) _ _ order s rfl
+  · intro s' conid hl
+    unfold collisionTaskOf
+    by_cases hact : conid < nacon_in 0 ∧ 0 ≤ (contact_geom_in conid).c0 ∧ 0 ≤ (contact_geom_in conid).c1
+    · have href := wake_collision_refines (K := K) s.length body_treeid geom_bodyid tree_awake_in contact_geom_in
+        contact_worldid_in nacon_in (asArr s') conid hact.1 hact.2
+      simp only [] at href
+      rw [href]
+      by_cases hw : contact_worldid_in conid = w
+      · rw [if_pos ⟨hact.1, hact.2.1, hact.2.2, hw⟩, hw]
+        cases collisionTarget (body_treeid (geom_bodyid (contact_geom_in conid).c0))
+            (body_treeid (geom_bodyid (contact_geom_in conid).c1))
+            (tree_awake_in w (body_treeid (geom_bodyid (contact_geom_in conid).c0)))
+            (tree_awake_in w (body_treeid (geom_bodyid (contact_geom_in conid).c1))) with
+        | none => rfl
+        | some ts =>
+          obtain ⟨t, src⟩ := ts
+          show applyAsleep w s' (wakeTreeWrites w s.length (rd s') t (rd s' src)) = wakeTree s' t (rd s' src)
+          rw [← hl]; exact applyAsleep_wakeTreeWrites w s' t (rd s' src)
+      · rw [if_neg (fun h => hw h.2.2.2)]
+        cases collisionTarget (body_treeid (geom_bodyid (contact_geom_in conid).c0))
+            (body_treeid (geom_bodyid (contact_geom_in conid).c1))
+            (tree_awake_in (contact_worldid_in conid) (body_treeid (geom_bodyid (contact_geom_in conid).c0)))
+            (tree_awake_in (contact_worldid_in conid) (body_treeid (geom_bodyid (contact_geom_in conid).c1))) with
+        | none => rfl
+        | some ts =>
+          obtain ⟨t, src⟩ := ts
+          exact applyAsleep_wakeTreeWrites_other w _ hw s' _ _ _ _
+    · rw [if_neg (fun h => hact ⟨h.1, h.2.1, h.2.2.1⟩)]
+      rw [wake_collision_inactive]
+      · rfl
+      · by_contra hn
+        apply hact
+        refine ⟨by omega, by omega, by omega⟩
+  · intro s' conid hl
+    show (collisionTask s' _).length = s.length
+    cases collisionTaskOf w body_treeid geom_bodyid tree_awake_in contact_geom_in contact_worldid_in nacon_in conid with
+    | none => exact hl
+    | some ts => obtain ⟨t, src⟩ := ts; show (wakeTree s' t (rd s' src)).length = _; rw [length_wakeTree]; exact hl
+
+/-- (4g) **wakes_if (contact, generated launch)**: run the GENERATED `_wake_collision_kernel` over ANY order of
+    threads on a well-formed state whose `tree_awake` flags are 0/1 and consistent (`flag = 1 ⇒ tree_asleep < 0`,
+    tree inside the array).  If an active contact `c` of world `w` joins tree `a` with flag 1 and tree `t` of the array with
+    flag ≠ 1 (not both 0: excluded by `a`'s flag), then `t` is awake afterwards. -/
+theorem wakes_if_contact_generated {K : Type} [Scalar K] (body_treeid geom_bodyid : Int → Int)
+    (tree_awake_in : Int → Int → Int) (contact_geom_in : Int → I2) (contact_worldid_in nacon_in : Int → Int)
+    (w : Int) (order : List Int) (s : List Int) (hwf : WF s)
+    (hflags : ∀ a : Int, tree_awake_in w a = 0 ∨ tree_awake_in w a = 1)
+    (hcons : ∀ a : Int, 0 ≤ a → tree_awake_in w a = 1 → a < s.length ∧ rd s a < 0)
+    (c : Int) (hc : c ∈ order) (t src : Int)
+    (htask : collisionTaskOf w body_treeid geom_bodyid tree_awake_in contact_geom_in contact_worldid_in nacon_in c = some (t, src))
+    (h0 : 0 ≤ t) (h1 : t < s.length) :
+    rd (launchK w (fun arr (conid : Int) => Gen.Sleep._wake_collision_kernel (K := K) s.length body_treeid geom_bodyid
+        tree_awake_in contact_geom_in contact_worldid_in nacon_in arr conid) order s) t < 0 := by
+  rw [wake_collision_launch_refines]
+  apply wakes_if_contact s hwf _ _ t src (by rw [← htask]; exact List.mem_map_of_mem hc) h0 h1
+  -- every task's source tree has flag 1, hence is awake
+  intro t' src' hm
+  obtain ⟨c', -, hc'⟩ := List.mem_map.mp hm
+  unfold collisionTaskOf collisionTarget at hc'
+  split_ifs at hc' with a1 a2 a3 a4 a5
+  · cases hc'
+    obtain ⟨b1, b2⟩ := hcons _ (by omega) a5
+    exact ⟨by omega, b1, b2⟩
+  · cases hc'
+    -- flag of tree1 is 0 (not 1), so the flag of tree2 is not 0, hence 1
+    have f1 : tree_awake_in w (body_treeid (geom_bodyid (contact_geom_in c').c0)) = 0 := by
+      rcases hflags (body_treeid (geom_bodyid (contact_geom_in c').c0)) with h | h
+      · exact h
+      · exact absurd h a5
+    have f2 : tree_awake_in w (body_treeid (geom_bodyid (contact_geom_in c').c1)) = 1 := by
+      rcases hflags (body_treeid (geom_bodyid (contact_geom_in c').c1)) with h | h
+      · exact absurd ⟨f1, h⟩ a4
+      · exact h
+    obtain ⟨b1, b2⟩ := hcons _ (by omega) f2
+    exact ⟨by omega, b1, b2⟩
+
+/-- (4h) **wakes_if (limited tendon, generated launch)**: run the GENERATED `_wake_tendon_kernel` over the tendons in
+    ANY order containing `tenid`, on a state whose sleeping entries point inside the array.  If tendon `tenid` has
+    an active limit, some tree on it has `tree_awake` flag 1, and tree `t` of the array is on it with flag 0, then `t`
+    is awake afterwards. -/
+theorem wakes_if_tendon_generated {K : Type} [Scalar K] (ntendon : Int)
+    (body_treeid jnt_bodyid geom_bodyid site_bodyid tendon_adr tendon_num tendon_limited : Int → Int)
+    (tendon_range : Int → Int → V2 K) (tendon_margin : Int → Int → K) (wrap_type wrap_objid : Int → Int)
+    (ten_length_in : Int → Int → K) (tree_awake_in : Int → Int → Int) (sh0 sh1 w : Int) (order : List Int) (s : List Int)
+    (hin : InRange s) (tenid : Int) (hmem : tenid ∈ order)
+    (hlim : Gen.Sleep._tendon_limit_active (K := K) tendon_limited tendon_range tendon_margin ten_length_in w tenid sh0 sh1 = true)
+    (t a : Int)
+    (ht : t ∈ tendonTrees (wrapTree body_treeid jnt_bodyid geom_bodyid site_bodyid wrap_type wrap_objid) (tendon_adr tenid) (tendon_num tenid))
+    (ha : a ∈ tendonTrees (wrapTree body_treeid jnt_bodyid geom_bodyid site_bodyid wrap_type wrap_objid) (tendon_adr tenid) (tendon_num tenid))
+    (ha0 : a ≥ 0) (haw : tree_awake_in w a = 1) (ht0 : 0 ≤ t) (ht1 : t < s.length) (htf : tree_awake_in w t = 0) :
+    rd (launchK w (fun arr (tid : Int) => Gen.Sleep._wake_tendon_kernel (K := K) s.length ntendon body_treeid jnt_bodyid geom_bodyid
+        site_bodyid tendon_adr tendon_num tendon_limited tendon_range tendon_margin wrap_type wrap_objid ten_length_in
+        tree_awake_in arr sh0 sh1 w tid) order s) t < 0 := by
+  refine wake_only_launch w _ ?hwo order s t tenid hmem ?hhit
+  case hwo =>
+    intro s' tid
+    rw [wake_tendon_kernel_refines]
+    refine wakeOnly_ite _ (wakeOnly_tendonWakeWrites _ _ _ _ _ _ ?_) wakeOnly_nil
+    have := (tendonScan_spec (asArr s' w) (tree_awake_in w) (tendonTrees (wrapTree body_treeid jnt_bodyid geom_bodyid
+      site_bodyid wrap_type wrap_objid) (tendon_adr tid) (tendon_num tid))).2.1
+    have hA : AWAKE_VAL < 0 := by decide
+    omega
+  case hhit =>
+    intro s' hr hs
+    rw [wake_tendon_kernel_refines]
+    have hsc := tendonScan_spec (asArr s' w) (tree_awake_in w) (tendonTrees (wrapTree body_treeid jnt_bodyid geom_bodyid
+        site_bodyid wrap_type wrap_objid) (tendon_adr tenid) (tendon_num tenid))
+    rw [if_pos ⟨hsc.1.mpr ⟨a, ha, ha0, haw⟩, hlim⟩]
+    unfold tendonWakeWrites
+    rw [rd_applyAsleep_cells w s' _ _ t (by
+      intro c hc
+      have := tendonWakeCells_inrange _ _ _ _ _ c hc
+      rw [hr.1]; exact this)]
+    have hmemc : t ∈ tendonWakeCells s.length (asArr s' w) (tree_awake_in w) (tendonTrees (wrapTree body_treeid jnt_bodyid
+        geom_bodyid site_bodyid wrap_type wrap_objid) (tendon_adr tenid) (tendon_num tenid))
+        (tendonScan (asArr s' w) (tree_awake_in w) (tendonTrees (wrapTree body_treeid jnt_bodyid geom_bodyid site_bodyid
+          wrap_type wrap_objid) (tendon_adr tenid) (tendon_num tenid))).2 := by
+      unfold tendonWakeCells
+      apply List.mem_flatMap.mpr
+      refine ⟨t, ht, ?_⟩
+      rw [if_pos ⟨by omega, htf⟩]
+      apply mem_wakeCells_self _ _ _ _ ht0 ht1 hs
+      show rd s' t < s.length
+      rw [hr.2 t hs]
+      have := hin t.toNat (List.mem_range.mpr (by omega))
+      rwa [show ((t.toNat : Nat) : Int) = t by omega] at this
+    rw [if_pos hmemc]
+    have hA : AWAKE_VAL < 0 := by decide
+    have := hsc.2.1
+    omega
+
+/-- (4i) **wakes_if (active equality, generated launch)**: run the GENERATED `_wake_equality_kernel` over the
+    equalities in ANY order containing `eqid`, on a state whose sleeping entries point inside the array.  If `eqid` is
+    active, of type CONNECT / WELD / JOINT, joins two DIFFERENT trees `≥ 0` of which `tsleep` (in the array) has
+    `tree_awake` flag 0 and the other flag 1, then `tsleep` is awake afterwards. -/
+theorem wakes_if_equality_generated {K : Type} [Scalar K] (neq : Int)
+    (body_treeid jnt_bodyid geom_bodyid site_bodyid eq_type eq_obj1id eq_obj2id eq_objtype tendon_adr tendon_num wrap_type
+      wrap_objid : Int → Int) (eq_active_in : Int → Int → Bool) (tree_awake_in : Int → Int → Int) (w : Int)
+    (order : List Int) (s : List Int) (hin : InRange s) (eqid : Int) (hmem : eqid ∈ order)
+    (hact : eq_active_in w eqid = true) (hty : eq_type eqid = 0 ∨ eq_type eqid = 1 ∨ eq_type eqid = 2)
+    (t1 t2 : Int)
+    (htt : eqTrees body_treeid jnt_bodyid site_bodyid (eq_type eqid) (eq_objtype eqid) (eq_obj1id eqid) (eq_obj2id eqid) = (t1, t2))
+    (h1 : t1 ≥ 0) (h2 : t2 ≥ 0) (hne : t1 ≠ t2)
+    (hflags : (tree_awake_in w t1 = 0 ∧ tree_awake_in w t2 = 1) ∨ (tree_awake_in w t1 = 1 ∧ tree_awake_in w t2 = 0))
+    (tsleep : Int) (hts : tsleep = if tree_awake_in w t1 = 0 then t1 else t2) (hr1 : tsleep < s.length) :
+    rd (launchK w (fun arr (tid : Int) => Gen.Sleep._wake_equality_kernel (K := K) s.length neq body_treeid jnt_bodyid geom_bodyid
+        site_bodyid eq_type eq_obj1id eq_obj2id eq_objtype tendon_adr tendon_num wrap_type wrap_objid eq_active_in tree_awake_in
+        arr w tid) order s) tsleep < 0 := by
+  have hA : AWAKE_VAL < 0 := by decide
+  refine wake_only_launch w _ ?hwo order s tsleep eqid hmem ?hhit
+  case hwo =>
+    -- every write of every equality task stores a negative value
+    intro s' tid
+    rw [wake_equality_kernel_refines]
+    refine wakeOnly_ite _ wakeOnly_nil (wakeOnly_ite _ (wakeOnly_eqBodyWrites _ _ _ _ _ _ _ _ _) (wakeOnly_ite _ ?_ wakeOnly_nil))
+    simp only []
+    generalize Gen.Sleep._tendon_wake_val (K := K) body_treeid jnt_bodyid geom_bodyid site_bodyid tendon_adr tendon_num wrap_type
+      wrap_objid tree_awake_in w (eq_obj1id tid) (asArr s') = w1
+    generalize Gen.Sleep._tendon_wake_val (K := K) body_treeid jnt_bodyid geom_bodyid site_bodyid tendon_adr tendon_num wrap_type
+      wrap_objid tree_awake_in w (eq_obj2id tid) (asArr s') = w2
+    have hv1 : (if w1 < 0 ∧ w1 < -11 then w1 else -11) ≤ -11 := by split <;> omega
+    have hv : (if w2 < 0 ∧ w2 < (if w1 < 0 ∧ w1 < -11 then w1 else -11) then w2 else (if w1 < 0 ∧ w1 < -11 then w1 else -11)) < 0 := by
+      split <;> omega
+    refine wakeOnly_ite _ ?_ wakeOnly_nil
+    rw [wake_tendon_trees_refines, wake_tendon_trees_refines]
+    exact wakeOnly_append (wakeOnly_ite _ wakeOnly_nil (wakeOnly_tendonWakeWrites _ _ _ _ _ _ hv))
+      (wakeOnly_ite _ wakeOnly_nil (wakeOnly_tendonWakeWrites _ _ _ _ _ _ hv))
+  case hhit =>
+    intro s' hr hs
+    rw [wake_equality_kernel_refines, if_neg (by simp [hact]), if_pos hty]
+    simp only [htt]
+    have hs1 : (if t1 ≥ 0 then tree_awake_in w t1 else -1) = tree_awake_in w t1 := if_pos h1
+    have hs2 : (if t2 ≥ 0 then tree_awake_in w t2 else -1) = tree_awake_in w t2 := if_pos h2
+    rw [hs1, hs2]
+    have hw : eqBodyWrites (K := K) w s.length (asArr s' w) t1 t2 (tree_awake_in w t1) (tree_awake_in w t2)
+        (Gen.Sleep._sleep_cycle (K := K) (asArr s') s.length w t1) (Gen.Sleep._sleep_cycle (K := K) (asArr s') s.length w t2)
+        = wakeTreeWrites w s.length (rd s') tsleep AWAKE_VAL := by
+      unfold eqBodyWrites
+      rcases hflags with ⟨f1, f2⟩ | ⟨f1, f2⟩
+      · rw [f1, f2, hts, f1]; simp [hne]; rfl
+      · rw [f1, f2, hts, f1]; simp [hne]; rfl
+    rw [hw]
+    have hts0 : 0 ≤ tsleep := by rw [hts]; split <;> omega
+    unfold wakeTreeWrites
+    rw [rd_applyAsleep_cells w s' _ _ tsleep (by
+      intro c hc
+      have := wakeCells_inrange _ _ _ _ c hc
+      rw [hr.1]; exact this)]
+    rw [if_pos (mem_wakeCells_self _ _ _ _ hts0 hr1 hs (by
+      rw [hr.2 tsleep hs]
+      have := hin tsleep.toNat (List.mem_range.mpr (by omega))
+      rwa [show ((tsleep.toNat : Nat) : Int) = tsleep by omega] at this))]
+    exact hA
+
+/-! ## 5. Which value, and in which order -/
+
+/-- (5a) **the value `_wake_tree` writes**.  (i) An AWAKE addressed tree takes the MINIMUM of its countdown and
+    the wake value, nothing else changes.  (ii) A SLEEPING addressed tree (well-formed state): it and every other
+    member of its cycle take the wake value itself — the first waker's value. -/
+theorem wake_tree_values (s : List Int) (t v : Int) (h0 : 0 ≤ t) (h1 : t < s.length) :
+    (rd s t < 0 → rd (wakeTree s t v) t = min v (rd s t) ∧ ∀ u, u ≠ t → rd (wakeTree s t v) u = rd s u) ∧
+    (WF s → rd s t ≥ 0 → ∀ u, onCycle s.length (rd s) t u → rd (wakeTree s t v) u = v) := by
+  constructor
+  · intro ha
+    have hc : wakeCells s.length (rd s) t v = if v < rd s t then [t] else [] := by
+      unfold wakeCells; rw [if_neg (by omega), if_pos ha]
+    refine ⟨?_, fun u hu => ?_⟩
+    · rw [rd_wakeTree, hc]
+      by_cases hv : v < rd s t
+      · rw [if_pos hv, if_pos (by simp)]; omega
+      · rw [if_neg hv, if_neg (by simp)]; omega
+    · rw [rd_wakeTree, hc]
+      by_cases hv : v < rd s t
+      · rw [if_pos hv, if_neg (by simpa using hu)]
+      · rw [if_neg hv, if_neg (by simp)]
+  · intro hwf hs u hc
+    rw [wake_wakes_whole_cycle s hwf t v u h0 h1 hs, if_pos hc]
+
+/-- (5b) **awake_set_order_independent**: a launch whose tasks are `_wake_tree(tree, value)` calls with negative
+    values, on a well-formed state: the SET of awake trees afterwards is the same for every task order
+    (the VALUES are not: `Props/C29Witness.lean`).  Closed form: `wake_launch_awake_iff`. -/
+theorem awake_set_order_independent (s : List Int) (hwf : WF s) (tasks tasks' : List (Int × Int))
+    (hp : tasks.Perm tasks') (hv : ∀ tv ∈ tasks, tv.2 < 0) :
+    awakeSet (wakeLaunch tasks s) = awakeSet (wakeLaunch tasks' s) := by
+  have hv' : ∀ tv ∈ tasks', tv.2 < 0 := fun tv h => hv tv (hp.mem_iff.mpr h)
+  obtain ⟨hI, h⟩ := wakeLaunch_awake s hwf tasks hv s (Intact.refl s)
+  obtain ⟨hI', h'⟩ := wakeLaunch_awake s hwf tasks' hv' s (Intact.refl s)
+  apply awakeSet_eq_of _ _ (by rw [hI.1, hI'.1])
+  intro u hu0 hu1
+  rw [hI.1] at hu1
+  rw [h u hu0 hu1, h' u hu0 hu1]
+  constructor
+  · rintro (a | ⟨tv, hm, b⟩)
+    · exact Or.inl a
+    · exact Or.inr ⟨tv, hp.mem_iff.mp hm, b⟩
+  · rintro (a | ⟨tv, hm, b⟩)
+    · exact Or.inl a
+    · exact Or.inr ⟨tv, hp.mem_iff.mpr hm, b⟩
+
+/-- (5b') the awake set after such a launch: the trees awake before, plus the cycles of the addressed sleeping trees -/
+theorem wake_launch_awake_iff (s : List Int) (hwf : WF s) (tasks : List (Int × Int)) (hv : ∀ tv ∈ tasks, tv.2 < 0)
+    (u : Int) (hu0 : 0 ≤ u) (hu1 : u < s.length) :
+    rd (wakeLaunch tasks s) u < 0 ↔
+      rd s u < 0 ∨ ∃ tv ∈ tasks, 0 ≤ tv.1 ∧ tv.1 < s.length ∧ rd s tv.1 ≥ 0 ∧ onCycle s.length (rd s) tv.1 u := by
+  rw [(wakeLaunch_awake s hwf tasks hv s (Intact.refl s)).2 u hu0 hu1]
+  constructor
+  · rintro (a | ⟨tv, hm, b0, b1, b2, b3⟩)
+    · exact Or.inl a
+    · exact Or.inr ⟨tv, hm, b0, b1, b2, (onCycle_iff_Cyc ((WF_iff s).mp hwf) s.length rfl _ u b0 b1 b2).mpr b3⟩
+  · rintro (a | ⟨tv, hm, b0, b1, b2, b3⟩)
+    · exact Or.inl a
+    · exact Or.inr ⟨tv, hm, b0, b1, b2, (onCycle_iff_Cyc ((WF_iff s).mp hwf) s.length rfl _ u b0 b1 b2).mp b3⟩
+
+/-- (5c) the same for the collision launch, whose wake values are read from the CURRENT state -/
+theorem collision_awake_set_order_independent (s : List Int) (hwf : WF s) (tasks tasks' : List (Option (Int × Int)))
+    (hp : tasks.Perm tasks')
+    (hsrc : ∀ t src, some (t, src) ∈ tasks → 0 ≤ src ∧ src < s.length ∧ rd s src < 0) :
+    awakeSet (collisionLaunch tasks s) = awakeSet (collisionLaunch tasks' s) := by
+  have hsrc' : ∀ t src, some (t, src) ∈ tasks' → 0 ≤ src ∧ src < s.length ∧ rd s src < 0 :=
+    fun t src h => hsrc t src (hp.mem_iff.mpr h)
+  obtain ⟨hI, h⟩ := collisionLaunch_awake s hwf tasks hsrc s (Intact.refl s)
+  obtain ⟨hI', h'⟩ := collisionLaunch_awake s hwf tasks' hsrc' s (Intact.refl s)
+  apply awakeSet_eq_of _ _ (by rw [hI.1, hI'.1])
+  intro u hu0 hu1
+  rw [hI.1] at hu1
+  rw [h u hu0 hu1, h' u hu0 hu1]
+  constructor
+  · rintro (a | ⟨t, src, hm, b⟩)
+    · exact Or.inl a
+    · exact Or.inr ⟨t, src, hp.mem_iff.mp hm, b⟩
+  · rintro (a | ⟨t, src, hm, b⟩)
+    · exact Or.inl a
+    · exact Or.inr ⟨t, src, hp.mem_iff.mpr hm, b⟩
+
+/-- (5d) **wake_kernel_order_independent**: all wakers of `_wake_kernel` store the same value −11 and never
+    address an awake tree, so the WHOLE state after the launch is independent of the task order. -/
+theorem wake_kernel_order_independent (s : List Int) (hwf : WF s) (trigger : Int → Bool) (order order' : List Int)
+    (hp : order.Perm order') : wakeKernelLaunch trigger order s = wakeKernelLaunch trigger order' s := by
+  obtain ⟨hI, hval, h⟩ := wakeKernelLaunch_spec s hwf trigger order s (Intact.refl s) (fun _ _ _ => Or.inl rfl)
+  obtain ⟨hI', hval', h'⟩ := wakeKernelLaunch_spec s hwf trigger order' s (Intact.refl s) (fun _ _ _ => Or.inl rfl)
+  apply ext_rd _ _ (by rw [hI.1, hI'.1])
+  intro k hk
+  rw [hI.1] at hk
+  have hk0 : (0 : Int) ≤ (k : Int) := by omega
+  have hk1 : (k : Int) < s.length := by omega
+  have hiff : rd (wakeKernelLaunch trigger order s) k < 0 ↔ rd (wakeKernelLaunch trigger order' s) k < 0 := by
+    rw [h k hk0 hk1, h' k hk0 hk1]
+    constructor
+    · rintro (a | ⟨t, hm, b⟩)
+      · exact Or.inl a
+      · exact Or.inr ⟨t, hp.mem_iff.mp hm, b⟩
+    · rintro (a | ⟨t, hm, b⟩)
+      · exact Or.inl a
+      · exact Or.inr ⟨t, hp.mem_iff.mpr hm, b⟩
+  have hA : AWAKE_VAL < 0 := by decide
+  rcases hval k hk0 hk1 with e | e <;> rcases hval' k hk0 hk1 with e' | e'
+  · rw [e, e']
+  · -- order' woke it, order did not
+    have : rd (wakeKernelLaunch trigger order s) k < 0 := hiff.mpr (by rw [e'.1]; exact hA)
+    rw [e] at this; omega
+  · have : rd (wakeKernelLaunch trigger order' s) k < 0 := hiff.mp (by rw [e.1]; exact hA)
+    rw [e'] at this; omega
+  · rw [e.1, e'.1]
+
+/-- (5e) a sleeping entry that points outside the array (corrupt state) is never woken: `_wake_tree` stores nothing.
+    Every theorem of § 4 therefore carries `WF` or `InRange`. -/
+theorem wake_tree_corrupt_no_wake (s : List Int) (t v : Int) (h : rd s t ≥ s.length) : wakeTree s t v = s :=
+  wakeTree_corrupt s t v h
+
+/-! ## 6. Sleeping trees are frozen (partial) -/
+
+/-- (6a) `_update_sleep_bodies`: a body of a tree whose `tree_awake` flag is not 1 is marked ASLEEP (0) and is NOT
+    appended to `body_awake_ind` -/
+theorem update_sleep_bodies_asleep {K : Type} [Scalar K] (body_parentid body_rootid body_mocapid body_treeid : Int → Int)
+    (tree_awake_in : Int → Int → Int) (flg : Int) (nbody_awake_out : Int → Int) (body_awake_out body_awake_ind_out : Int → Int → Int)
+    (alloc0 w b : Int) (ht : body_treeid b ≥ 0) (ha : tree_awake_in w (body_treeid b) ≠ 1) :
+    Gen.Sleep._update_sleep_bodies (K := K) body_parentid body_rootid body_mocapid body_treeid tree_awake_in flg nbody_awake_out
+        body_awake_out body_awake_ind_out alloc0 w b
+      = [(Write.mk "body_awake_out" [w, b] (WVal.i 0) WKind.set : Write K)] := by
+  unfold Gen.Sleep._update_sleep_bodies
+  have : ¬ body_treeid b < 0 := by omega
+  simp [this, ha]
+
+/-- (6b) `_update_sleep_dofs`: a dof whose body is not AWAKE (1) writes nothing — it is not in `dof_awake_ind`, not
+    counted in `nv_awake`; a dof of an awake tree body takes the next slot -/
+theorem update_sleep_dofs_refines {K : Type} [Scalar K] (body_treeid dof_bodyid : Int → Int) (body_awake_in : Int → Int → Int)
+    (nv_awake_out : Int → Int) (dof_awake_ind_out : Int → Int → Int) (alloc0 w d : Int) :
+    Gen.Sleep._update_sleep_dofs (K := K) body_treeid dof_bodyid body_awake_in nv_awake_out dof_awake_ind_out alloc0 w d
+      = if body_treeid (dof_bodyid d) ≥ 0 ∧ body_awake_in w (dof_bodyid d) = 1 then
+          [(Write.mk "nv_awake_out" [w] (WVal.i 1) WKind.alloc : Write K),
+           (Write.mk "dof_awake_ind_out" [w, alloc0] (WVal.i d) WKind.set : Write K)]
+        else [] := by
+  unfold Gen.Sleep._update_sleep_dofs
+  by_cases h1 : body_treeid (dof_bodyid d) ≥ 0 <;> by_cases h2 : body_awake_in w (dof_bodyid d) = 1 <;> simp [h1, h2]
+
+/-- (6c) `_build_cycles` ZEROES `qvel` and `qacc` of every dof of every tree it puts to sleep (tree of an island
+    with `island_can_sleep = 1`; tree without island whose countdown is −1) or finds asleep without island; and every
+    store it makes into `qvel` / `qacc` is a zero store (so the cell holds 0 after the task, whatever the order of
+    its stores). -/
+theorem build_cycles_zeroes {K : Type} [Scalar K] (ntree : Int) (tree_dofadr tree_dofnum nisland_in : Int → Int)
+    (tree_island_in island_can_sleep_in tree_asleep_out : Int → Int → Int) (qvel_out qacc_out : Int → Int → K) (w t : Int)
+    (ht0 : 0 ≤ t) (ht1 : t < ntree)
+    (hcase : (0 ≤ tree_island_in w t ∧ tree_island_in w t < nisland_in w ∧ island_can_sleep_in w (tree_island_in w t) = 1) ∨
+      ((tree_island_in w t < 0 ∨ tree_island_in w t ≥ nisland_in w) ∧ (tree_asleep_out w t = -1 ∨ tree_asleep_out w t ≥ 0)))
+    (d : Nat) (hd : (d : Int) < tree_dofnum t) :
+    let ws := Gen.Sleep._build_cycles (K := K) ntree tree_dofadr tree_dofnum nisland_in tree_island_in island_can_sleep_in
+      tree_asleep_out qvel_out qacc_out w
+    qvelZero w (tree_dofadr t + d) ∈ ws ∧ qaccZero w (tree_dofadr t + d) ∈ ws ∧ ∀ x ∈ ws, BuildShape w x := by
+  intro ws
+  have hws : ws = _ := build_cycles_refines ntree tree_dofadr tree_dofnum nisland_in tree_island_in island_can_sleep_in
+    tree_asleep_out qvel_out qacc_out w
+  rw [hws]
+  obtain ⟨a, b⟩ := zero_mem_buildCyclesWrites (K := K) w ntree.toNat (nisland_in w) tree_dofadr tree_dofnum (tree_island_in w)
+    (island_can_sleep_in w) (tree_asleep_out w) t ht0 (by omega) hcase d hd
+  exact ⟨a, b, shape_buildCyclesWrites _ _ _ _ _ _ _ _⟩
+
+/-- (6d) `_next_velocity` uses NO awake mask: it integrates every dof, `qvel' = qvel + scale·qacc·dt`.  Over ℝ, a
+    dof with `qvel = 0` and `qacc = 0` keeps velocity 0. -/
+theorem next_velocity_frozen (opt_timestep : Int → ℝ) (qvel_in qacc_in : Int → Int → ℝ) (scale : ℝ) (qvel_out : Int → Int → ℝ)
+    (sh w d : Int) (hv : qvel_in w d = 0) (ha : qacc_in w d = 0) :
+    Gen.Forward._next_velocity opt_timestep qvel_in qacc_in scale qvel_out sh w d
+      = [(Write.mk "qvel_out" [w, d] (WVal.f (0 : ℝ)) WKind.set : Write ℝ)] := by
+  unfold Gen.Forward._next_velocity
+  simp [hv, ha]
+
+/-- (6e) `_next_position` uses NO awake mask either.  Over ℝ, a hinge / slide joint (type ∉ {FREE = 0, BALL = 1})
+    whose dof has velocity 0 keeps its position. -/
+theorem next_position_frozen (opt_timestep : Int → ℝ) (jnt_type jnt_qposadr jnt_dofadr : Int → Int)
+    (qpos_in qvel_in : Int → Int → ℝ) (scale : ℝ) (qpos_out : Int → Int → ℝ) (sh w j : Int)
+    (hty : jnt_type j ≠ 0 ∧ jnt_type j ≠ 1) (hv : qvel_in w (jnt_dofadr j) = 0) :
+    Gen.Forward._next_position opt_timestep jnt_type jnt_qposadr jnt_dofadr qpos_in qvel_in scale qpos_out sh w j
+      = [(Write.mk "qpos_out" [w, jnt_qposadr j] (WVal.f (qpos_in w (jnt_qposadr j))) WKind.set : Write ℝ)] := by
+  unfold Gen.Forward._next_position
+  simp [hty.1, hty.2, hv]
+
+/-- (6f) `_qfrc_smooth` with sleeping enabled: the smooth force of a dof of a tree whose `tree_awake` flag is 0 is
+    set to exactly 0 -/
+theorem qfrc_smooth_asleep {K : Type} [Scalar K] (body_treeid dof_bodyid : Int → Int) (qfrc_applied_in : Int → Int → K)
+    (tree_awake_in : Int → Int → Int) (qfrc_bias_in qfrc_passive_in qfrc_actuator_in qfrc_smooth_out : Int → Int → K)
+    (w d : Int) (ht : body_treeid (dof_bodyid d) ≥ 0) (ha : tree_awake_in w (body_treeid (dof_bodyid d)) = 0) :
+    Gen.Forward._qfrc_smooth__kernel (K := K) body_treeid dof_bodyid qfrc_applied_in tree_awake_in qfrc_bias_in qfrc_passive_in
+        qfrc_actuator_in qfrc_smooth_out true w d
+      = [(Write.mk "qfrc_smooth_out" [w, d] (WVal.f (Scalar.lit 0 0 : K)) WKind.set : Write K)] := by
+  unfold Gen.Forward._qfrc_smooth__kernel
+  simp [ht, ha]
+
+/-- (6) **sleeping_tree_frozen_partial**.  What is proved about "a sleeping tree's position and velocity do not
+    change":
+    * falling asleep: `_build_cycles` stores 0 into `qvel` and `qacc` of all dofs of the tree (6c);
+    * masks: `tree_awake = (tree_asleep < 0)` (1f); bodies of a flag-0 tree are marked ASLEEP and dropped from
+      `body_awake_ind` (6a); their dofs are dropped from `dof_awake_ind` / `nv_awake` (6b); `_qfrc_smooth` of such a dof
+      is exactly 0 (6f);
+    * integration: `_next_velocity` / `_next_position` (forward.py `_advance`) use NO mask; with `qvel = 0` and
+      `qacc = 0` the velocity stays 0 and a hinge / slide coordinate stays put (6d, 6e, over ℝ).
+    Stated here as one conjunction for one dof `d` of a hinge/slide joint `j` of a sleeping tree.
+
+    FULL statement (not proved): for every step with sleeping enabled and every tree `t` with `tree_asleep[t] ≥ 0` before
+    and after the step, `qpos` and `qvel` of all its dofs are unchanged.  MISSING:
+    (i) `qacc = 0` on later steps is produced elsewhere — the compact solve scatters exactly 0 into `qacc` of dofs
+        with `dof_cdof < 0` (`Props.C38.gather_scatter_id`), and `dof_cdof < 0` for dofs of non-awake trees
+        (`Props.C38.compact_final_maps`); the chaining `tree_asleep ≥ 0 ⇒ tree_awake = 0 ⇒ dof_cdof < 0 ⇒ qacc = 0`
+        across the launches of `forward()` / `_advance` (host order, parameter ↔ field names) is not modelled here;
+    (ii) FREE / BALL joints: `_next_position` calls `quat_integrate`, which re-normalises the quaternion — identity only
+        for unit quaternions, and only over ℝ;
+    (iii) float semantics (`0·dt`, `x + 0` are exact in IEEE arithmetic for finite values, but this is not proved), and
+        the integrators other than Euler (`implicit`, RK4 re-use `_advance` with other `qacc`/`qvel` arguments);
+    (iv) that nothing else writes `qpos` / `qvel` of a sleeping tree during a step. -/
+theorem sleeping_tree_frozen_partial (opt_timestep : Int → ℝ) (jnt_type jnt_qposadr jnt_dofadr : Int → Int)
+    (qpos qvel qacc : Int → Int → ℝ) (qpos_out qvel_out : Int → Int → ℝ) (sh w j : Int)
+    (body_treeid dof_bodyid : Int → Int) (body_awake_in : Int → Int → Int) (nv_awake_out : Int → Int)
+    (dof_awake_ind_out : Int → Int → Int) (alloc0 : Int)
+    (hty : jnt_type j ≠ 0 ∧ jnt_type j ≠ 1)
+    (hasleep : body_awake_in w (dof_bodyid (jnt_dofadr j)) ≠ 1)
+    (hv : qvel w (jnt_dofadr j) = 0) (ha : qacc w (jnt_dofadr j) = 0) :
+    -- the dof is not in the awake list
+    Gen.Sleep._update_sleep_dofs (K := ℝ) body_treeid dof_bodyid body_awake_in nv_awake_out dof_awake_ind_out alloc0 w (jnt_dofadr j) = [] ∧
+    -- its velocity stays 0
+    Gen.Forward._next_velocity opt_timestep qvel qacc 1 qvel_out sh w (jnt_dofadr j)
+      = [(Write.mk "qvel_out" [w, jnt_dofadr j] (WVal.f (0 : ℝ)) WKind.set : Write ℝ)] ∧
+    -- its position stays put
+    Gen.Forward._next_position opt_timestep jnt_type jnt_qposadr jnt_dofadr qpos qvel 1 qpos_out sh w j
+      = [(Write.mk "qpos_out" [w, jnt_qposadr j] (WVal.f (qpos w (jnt_qposadr j))) WKind.set : Write ℝ)] := by
+  refine ⟨?_, next_velocity_frozen _ _ _ _ _ _ _ _ hv ha, next_position_frozen _ _ _ _ _ _ _ _ _ _ _ hty hv⟩
+  rw [update_sleep_dofs_refines, if_neg (fun h => hasleep h.2)]
+
+/-! ## 7. Examples (non-vacuity, concrete states) -/
+
+/-- a well-formed state: trees 0,1,2 one cycle, tree 3 awake (countdown −4), tree 4 a self-cycle -/
+example : WF [1, 2, 0, -4, 4] ∧ InRange [1, 2, 0, -4, 4] := by decide
+
+/-- … not well-formed: tree 1 points at 0, but 0 → 2 → 0 never returns to 1 -/
+example : ¬ WF [2, 0, 0] := by decide
+
+/-- `_wake_tree(0, −11)` on it wakes exactly the cycle {0,1,2} -/
+example : wakeTree [1, 2, 0, -4, 4] 0 (-11) = [-11, -11, -11, -4, 4] := by decide
+
+/-- `_wake_tree` on the AWAKE tree 3: lowered to −7, but not raised to −2 -/
+example : wakeTree [1, 2, 0, -4, 4] 3 (-7) = [1, 2, 0, -7, 4] ∧ wakeTree [1, 2, 0, -4, 4] 3 (-2) = [1, 2, 0, -4, 4] := by decide
+
+/-- the GENERATED `_wake_tree` on that state: its write list and return value -/
+example : wproj (Gen.Sleep._wake_tree (K := Float) 5 7 1 (-11) (asArr [1, 2, 0, -4, 4])).2
+      = [("tree_asleep_out", [7, 1], -11, WKind.set), ("tree_asleep_out", [7, 2], -11, WKind.set),
+         ("tree_asleep_out", [7, 0], -11, WKind.set)]
+    ∧ (Gen.Sleep._wake_tree (K := Float) 5 7 1 (-11) (asArr [1, 2, 0, -4, 4])).1 = 3 := by decide
+
+/-- the walk is defined for every wake value: with the (never used) value 1 on `[1, 0]` it stores 1 into cells 0 and 1
+    and stops when it is back at tree 0 -/
+example : wakeCells 2 (rd [1, 0]) 0 1 = [0, 1] := by decide
+
+/-- hypotheses of `awake_set_order_independent` / `wake_kernel_order_independent` are satisfiable, and the `_wake_kernel`
+    launch in two orders gives the same state -/
+example : wakeKernelLaunch (fun t => t == 1 || t == 3) [0, 1, 2, 3, 4] [1, 2, 0, -4, 4] = [-11, -11, -11, -4, 4]
+    ∧ wakeKernelLaunch (fun t => t == 1 || t == 3) [4, 3, 2, 1, 0] [1, 2, 0, -4, 4] = [-11, -11, -11, -4, 4] := by decide
+
+/-- one call of `sleep()`: 4 trees, islands [0, 0, −1, 1]; countdowns [−2, −1, −1, −3], all quiet.  After the sweep
+    [−1, −1, −1, −2]: island 0 sleeps (cycle 0 ↔ 1), tree 2 (no island) becomes a self-cycle, island 1 must wait. -/
+example : sleepStep (fun _ => true) (fun t => [0, 0, -1, 1].getD t.toNat (-1)) 2 [0, 1, 2, 3] [3, 2, 1, 0] [-2, -1, -1, -3]
+      = [1, 0, 2, -2]
+    ∧ WF (sleepStep (fun _ => true) (fun t => [0, 0, -1, 1].getD t.toNat (-1)) 2 [0, 1, 2, 3] [3, 2, 1, 0] [-2, -1, -1, -3]) := by
+  decide
+
+/-- the same, tree 1 not quiet: its countdown is reset to −11 and island 0 stays awake -/
+example : sleepStep (fun t => t != 1) (fun t => [0, 0, -1, 1].getD t.toNat (-1)) 2 [0, 1, 2, 3] [3, 2, 1, 0] [-2, -1, -1, -3]
+      = [-1, -11, 2, -2] := by decide
+
+/-- the countdown: from −11, ten quiet sweeps reach −1, the eleventh stays there; a noisy sweep resets -/
+example : (List.range 13).map (countdown (fun j => j != 11) AWAKE_VAL) = [-11, -10, -9, -8, -7, -6, -5, -4, -3, -2, -1, -1, -11] := by
+  decide
+
+/-- the GENERATED `_build_cycles` (world 0, 3 trees with 1 dof each, islands [0, −1, 0], `island_can_sleep[0] = 1`):
+    exact write list -/
+example : wproj (Gen.Sleep._build_cycles (K := Float) 3 (fun t => t) (fun _ => 1) (fun _ => 1)
+      (fun _ t => [0, -1, 0].getD t.toNat (-1)) (fun _ _ => 1) (asArr [-1, -1, -1]) (fun _ _ => 0) (fun _ _ => 0) 0)
+    = [("tree_asleep_out", [0, 0], 2, WKind.set), ("tree_asleep_out", [0, 2], 0, WKind.set),
+       ("tree_asleep_out", [0, 1], 1, WKind.set)] := by decide
+
+/-- the GENERATED sweep / check kernels on concrete inputs -/
+example : wproj (Gen.Sleep._check_island_can_sleep (K := Float) 3 (fun _ => 2) (fun _ t => [-3, -1, 5].getD t.toNat 0)
+      (fun _ t => [1, 1, 0].getD t.toNat (-1)) (fun _ _ => 1) 0 0)
+    = [("island_can_sleep_out", [0, 1], 0, WKind.amin)] := by decide
+
+/-- the hypotheses of `falls_asleep_only_if` are met by the `sleep()` example above for tree 0 (awake −2 before, asleep
+    after), and its conclusion there: quiet, countdown −2 → −1, island-mate tree 1 at −1 -/
+example :
+    let s : List Int := [-2, -1, -1, -3]
+    let island : Int → Int := fun t => [0, 0, -1, 1].getD t.toNat (-1)
+    ([0, 1, 2, 3] : List Int).Nodup ∧ (∀ t : Int, 0 ≤ t → t < s.length → t ∈ ([0, 1, 2, 3] : List Int)) ∧
+    (∀ t : Int, 0 ≤ t → t < s.length → t ∈ ([3, 2, 1, 0] : List Int)) ∧ (2 : Int) ≤ s.length ∧
+    rd s 0 < 0 ∧ rd (sleepStep (fun _ => true) island 2 [0, 1, 2, 3] [3, 2, 1, 0] s) 0 ≥ 0 ∧
+    rd (sweep (fun _ => true) [0, 1, 2, 3] s) 0 = -1 ∧ rd (sweep (fun _ => true) [0, 1, 2, 3] s) 1 = -1 := by
+  refine ⟨by decide, ?_, ?_, by decide, by decide, by decide, by decide, by decide⟩
+  · intro t h0 h1
+    have h1' : t < 4 := h1
+    have : t = 0 ∨ t = 1 ∨ t = 2 ∨ t = 3 := by omega
+    rcases this with rfl | rfl | rfl | rfl <;> simp
+  · intro t h0 h1
+    have h1' : t < 4 := h1
+    have : t = 0 ∨ t = 1 ∨ t = 2 ∨ t = 3 := by omega
+    rcases this with rfl | rfl | rfl | rfl <;> simp
+
+/-- the hypotheses of `countdown_needs_minawake` are met by the undisturbed countdown itself, which reaches −1 at
+    sweep 10 when all sweeps are quiet -/
+example : countdown (fun _ => true) AWAKE_VAL 0 ≤ AWAKE_VAL ∧
+    (∀ j, countdown (fun _ => true) AWAKE_VAL (j + 1) ≤ sweepVal true (countdown (fun _ => true) AWAKE_VAL j)) ∧
+    countdown (fun _ => true) AWAKE_VAL 10 = -1 :=
+  ⟨le_refl _, fun _ => le_refl _, by decide⟩
 
 end Mjw.Props.C29
